@@ -39,7 +39,7 @@ DDM_MENU = [(2.0, 3.0), (1.0, 1.0), (1.0, 2.0), (0.5, 1.0), (2.0, 2.0), (0.0, 1.
 EDDM_MENU = [(0.95, 0.9), (1.0, 1.0), (1.0, 0.5), (0.75, 0.5), (1.0, 0.9), (0.5, 0.25), (0.5, 0.0)]      # threshold 0 is legal (a positive ratio never reaches it)
 # incl. warning level stricter than the drift level (legal: the drift test comes first, a warning is then impossible)
 STEPD_MENU = [(0.05, 0.003), (0.5, 0.25), (0.25, 0.05), (1.0, 0.5), (0.05, 0.0), (0.0, 0.05), (0.003, 0.25), (0.25, 0.5),
-              (0.6, 0.003), (0.7, 0.6), (0.95, 0.75)]     # levels above 1/2 (legal; the suite itself uses 0.6 / 0.7): negative critical values
+              (0.6, 0.003), (0.7, 0.6), (0.95, 0.75), (0.0, 0.0)]     # both 0: legal, nothing is ever reported     # levels above 1/2 (legal; the suite itself uses 0.6 / 0.7): negative critical values
 
 
 # ---------------------------------------------------------------- critical values for STEPD
@@ -405,7 +405,7 @@ def run(ctx):
     n_long = 8 if ctx.quick else 40
     long_cfgs = {"ddm": [(30, 2.0, 3.0), (10, 1.5, 2.5), (50, 2.0, 3.0)],
                  "eddm": [(30, 0.95, 0.9), (10, 0.9, 0.8), (15, 0.98, 0.95)],
-                 "stepd": [(30, 0.05, 0.003), (10, 0.1, 0.01), (50, 0.05, 0.003), (20, 0.0, 0.01), (30, 0.7, 0.6)]}
+                 "stepd": [(30, 0.05, 0.003), (10, 0.1, 0.01), (20, 0.05, 0.0), (20, 0.0, 0.01), (30, 0.7, 0.6), (50, 0.05, 0.003)]}
     total_d = {}
     for i in range(n_long):
         n = int(rng.integers(1500, 5001))
@@ -416,7 +416,7 @@ def run(ctx):
             level = float(rng.choice([0.02, 0.05, 0.1, 0.2, 0.35, 0.5, 0.7]))
         errs = tuple(errs[:n])
         for kind in ("ddm", "eddm", "stepd"):
-            cfg = long_cfgs[kind][i % 3]
+            cfg = long_cfgs[kind][i % len(long_cfgs[kind])]
             s = B.run(kind, cfg, [errs], "long")
             total_d[kind] = total_d.get(kind, 0) + s["drifts"]
     ctx.extra["long_sequences"] = {"per_detector": n_long, "drift_steps": total_d}
